@@ -231,7 +231,7 @@ pub fn run_setup(lane: &str, args: &[&str]) -> (String, Option<String>) {
 pub fn gen_tls(rng: &mut Rng, n: usize, out: &mut Vec<String>) {
     let mut all = vec![];
     for scheme in ["ldaps", "ldap"] { for starttls in [0, 1] { for noverify in [0, 1] { for connector in ["none", "ca"] {
-        for answer in ["success", "rc2", "rc53", "garbage", "close", "otherid"] { for cert in ["trusted", "selfsigned", "wrongname"] { for hs in [1, 0] {
+        for answer in ["success", "rc2", "rc53", "rc256", "rc4096", "garbage", "close", "otherid"] { for cert in ["trusted", "selfsigned", "wrongname"] { for hs in [1, 0] {
             if scheme == "ldaps" && answer != "success" { continue; }
             if scheme == "ldap" && starttls == 0 && (answer != "success" || cert != "trusted" || hs == 0) { continue; }
             for extra in ["-", "forged"] { if extra == "forged" && !(scheme == "ldap" && starttls == 1) { continue; }
@@ -288,6 +288,8 @@ pub fn run_tls(args: &[&str]) -> (String, Option<String>) {
     if tls_requested {
         if res.starts_with("ok") && !saw_tls_ldap { oracle = Some("TLS was requested but the returned handle talks in cleartext".to_string()); }
         if other_clear { oracle = Some("an LDAP message other than the StartTLS request was sent in cleartext".to_string()); }
+        // a refusal is final: after a non-zero result code (of any width) the client must not go on to a TLS handshake
+        if scheme == "ldap" && answer.starts_with("rc") && answer != "rc0" && clear.iter().any(|e| *e == "clear:tls-hello") { oracle = Some(format!("StartTLS was refused ({}) but the client started a TLS handshake all the same", answer)); }
         if res.contains("forged-reply-accepted") { oracle = Some("cleartext bytes injected after the StartTLS response were interpreted as an LDAP response inside the session".to_string()); }
         let accepts_invalid = if connector == "ca" { false } else { noverify };
         let trusted = cert == "trusted" && connector == "ca";
